@@ -14,6 +14,7 @@ import XrayProofs.Scope
 import XrayProofs.Closure
 import XrayModel.ScopeRun
 import XrayProofs.CompileProg
+import XrayProofs.CompileFun
 namespace XrayModel.C03
 open XrayModel.Scope XrayModel.Core XrayModel.ScopeRun
 
@@ -308,12 +309,27 @@ FULL STATEMENT (not proved; `compile_correct`): for every core program `ds : Lis
   for all `fuel` with `Core.runProgram fuel cfg ds ≠ oof` there is `fuel'` such that `runRoot fuel' cfg root` has the
   same outcome (bindings of the `let`s related by the value relation "same first-order value / a function value on
   both sides", violations by kind, the same output lines and the same number of counted calls), and conversely.
-What it needs beyond what is proved: a value relation between named closures (code + default values + captured
-environment) and cell closures (template + cells resolved by `from_spec`), and the simulation of `mkClos`/`mkTemplate`,
-`callUser`/`tramp`/`fromTemplate`/`runDecls` under it — i.e. that the cells `capture_threading` and
-`use_reads_nearest` speak about are filled with the values of the named environment (the structural theorems give
-the addresses, this would give the contents), with a fuel-existential statement because hoisted lambda
-declarations and parameter declarations spend fuel the named evaluator does not.
+STATE OF THE PROOF.
+ * whole programs of `let`s over the function-free fragment: `compile_correct_partial` (below), an equality for every fuel;
+ * the run-time half of calls of top-level functions WITHOUT captures (parameters and natives only, no recursion, no
+   optional parameters, no local declarations): `compile_correct_call` (the call step: `callUser`, the trampoline, the
+   new activation and its parameter cells against `Core.callUser`/`tramp`/`bindParams`) and
+   `compile_correct_partial_calls` (expressions that call such functions, arguments left to right, under the frame
+   agreement `WF`) — equalities for every fuel: creating an activation and binding its parameters spends no fuel in
+   the cell model, exactly as `bindParams` in `Core.tramp`.
+ NOT proved, towards the full statement:
+ (a) the compile-time half for function declarations: that `closeFunc`/`into_static_ud`/`add_static_func` turn such a
+     declaration into the cells, declarations and body of `tmplOf k f`, and that root expressions compile to
+     `cxf root.vars root.funcs e` when the root scope has functions (`compile_frag` is for scopes without);
+ (b) the declaration loop with `Declaration::Function`: that `mkTemplate` puts `tmplOf k f` into cell `k` and the frame
+     agreement `WF` is re-established for the following declarations from a syntactic condition on the program
+     (function names distinct from variable names, call sites with the right arity);
+ (c) everything with captures: the value relation between named closures (code + default values + captured
+     environment) and cell closures (template + cells resolved by `from_spec`) when the capture list is not empty —
+     that the cells `capture_threading` and `use_reads_nearest` speak about are filled with the values of the named
+     environment (the structural theorems give the addresses, this would give the contents) — recursion cells,
+     closures as values (arguments, results, tuple items), nested declarations, defaults, lambdas; there the statement
+     has to be fuel-existential, because hoisted lambda declarations spend fuel the named evaluator does not.
 
 PROVED (`compile_correct_partial`, for whole programs; `compile_correct_partial_expr` for expressions): the
 function-free fragment — no function declarations, no lambdas, no computed callees; variables (with shadowing), literals, tuples, arrays, item access, calls of bound non-function values, and
@@ -355,5 +371,46 @@ example :
                                            .call "if_error" [.call "mod" [.var "y", .int 0], .int 7],
                                            .call "display" [.int 9]]),
                      .letD "e" (.call "is_error" [.call "error" [.str "boom"]])] = true := by decide
+
+/-! ### towards functions: calls of top-level functions without captures
+
+`CellRun.FunOK x f envc`: `f` is named `x`, has no optional parameters and no local declarations, `x` is not one of its
+parameters, and its body (`BodyOK`) mentions only its parameters as variables and only names that are bound nowhere
+(natives) as callees — no captures, no recursion.  `CellRun.tmplOf k f` is the template the cell machine builds for it
+when it is declared in cell `k` of the root (parameter cells, the recursion cell, `Parameter` declarations, the compiled
+body `cxf (paramVars …) [] body`).  `CellRun.WF C e`: at every name the expression mentions, the named frame and the
+activation agree — a function-free value in the variable's cell, or such a closure under a function name with its
+template in the function's cell — and every call site has the callee's arity. -/
+
+/-- **the call step** (`callUser` / trampoline / `initFrame` + `runParams` + `runDecls` against `Core.callUser` /
+`Core.tramp` / `bindParams` + `evalDecls`): calling the cell closure of such a function with the images of function-free
+arguments gives exactly the named call's outcome and state — error arguments, call limit, depth limit, the body run
+in the activation whose parameter cells hold the arguments — for every fuel, configuration and caller of the same
+stack height. -/
+theorem compile_correct_call (cfg : Core.Cfg) (fuel : Nat) (x : String) (f : Core.Func)
+    (envc : List (String × Core.Val)) (k : Nat) (args : List Core.Val) (caller : CellRun.RFrame) (h : Nat) (st : St)
+    (hfun : CellRun.FunOK x f envc) (hcf : ∀ a ∈ args, CellRun.closFree a = true)
+    (hlen : args.length = f.params.length) (hh : caller.height = h) :
+    CellRun.callUser fuel cfg caller (CellRun.tmplOf k f) (args.map CellRun.ofCore) st
+      = (CellRun.cr (Core.callUser fuel cfg h (.clos f [] envc) args st).1,
+         (Core.callUser fuel cfg h (.clos f [] envc) args st).2) :=
+  ((CellRun.simF_all cfg fuel).2.2.2 x f envc k args caller h st hfun hcf hlen hh).1
+
+/-- **expressions with calls of such functions**: under `WF`, the compiled expression `cxf vars funs e` (variables and
+function names as cells, natives as library calls) evaluates on the cell machine to exactly the named evaluator's
+outcome and state, for every fuel, configuration and tail flag — including the calls (arguments left to right, the
+callee's activation, its body) -/
+theorem compile_correct_partial_calls (cfg : Core.Cfg) (fuel : Nat) (e : Core.Expr) (C : CellRun.Ctx) (tail : Bool)
+    (st : St) (hw : CellRun.WF C e) :
+    CellRun.eval fuel cfg C.rfr (CellRun.cxf C.vars C.funs e) tail st
+      = (CellRun.cr (Core.eval fuel cfg C.fr e tail st).1, (Core.eval fuel cfg C.fr e tail st).2) :=
+  ((CellRun.simF_all cfg fuel).1 e C tail st hw).1
+
+/-- the hypotheses are satisfiable: `fn inc(a) { if(lt(a, 0), neg(a), add(a, 1)) }` -/
+example : CellRun.FunOK "inc"
+    (.mk (some "inc") [.mk "a" none] []
+      (.call "if" [.call "lt" [.var "a", .int 0], .call "neg" [.var "a"], .call "add" [.var "a", .int 1]])) [] := by
+  simp [CellRun.FunOK, CellRun.BodyOK, CellRun.BodyOKs, Core.Func.name, Core.Func.decls, Core.Func.params,
+    Core.Func.body, Core.Param.name, Core.Param.dflt, Core.lookup]
 
 end XrayModel.C03
